@@ -65,6 +65,45 @@ def p_lossless(t):
     return None
 
 
+def p_big(t):
+    """the losslessness statement for large texts (one pass over the words)"""
+    try:
+        paras = list(debcon.get_paragraphs_data(t))
+    except Exception as e:  # noqa
+        return 'raises %s' % type(e).__name__
+    have = set()
+    names = set()
+    for d in paras:
+        for k, v in d.items():
+            names.add(k)
+            have.update(v.split())
+    for w in t.split():
+        if w in have:
+            continue
+        n, c, r = w.partition(':')
+        if c and n.lower() in names and (not r or r in have):
+            continue
+        return 'word %r of a text of %d characters (%d paragraphs returned, the last one %r) is lost by get_paragraphs_data' % (w, len(t), len(paras), paras[-1] if paras else None)
+    return None
+
+
+def big_texts(rng, sizes):
+    """control texts of about the given numbers of characters: paragraphs of three or four short fields separated by one
+    to three empty lines, ending with the last field line, with one newline, or with an empty line"""
+    out = []
+    for k, size in enumerate(sizes):
+        parts, n, i = [], 0, 0
+        while n < size:
+            p = 'Package: p%d\nVersion: %d.%d-1\nDescription: w%d some words\n more w%dx words' % (i, i % 7, i, i, i)
+            sep = '\n' * rng.randint(2, 4)
+            parts.append(p + sep)
+            n += len(p) + len(sep)
+            i += 1
+        t = ''.join(parts).rstrip('\n')
+        out.append(t + ['', '\n', '\n\n'][k % 3])
+    return out
+
+
 def p_fresh(t):
     """every call returns its own mapping: what a caller does to one result (add, delete, overwrite) is not seen in
     the result of the next call on the same text, nor in the other paragraphs of one document"""
@@ -167,6 +206,27 @@ def run(ctx):
     texts += [G.unicode_text(rng, 40) for _ in range(ctx.n(1000, 20000))]
     texts += ['From foo\na: 1\n', 'a: 1\na: 2\na: 1\n', 'a: 1\n\nFrom x\nb: 2\n', 'a:1', 'A:b:c d\n', ':x\na: 1\n', ' c\na: 1\n']
     fails = ctx.prop('prop:lossless', texts, p_lossless)
+    # texts beyond 64 KiB, 1 MiB and 2 MiB that end in every way a file ends
+    fails += ctx.prop('prop:lossless:large', big_texts(rng, [70000, 70000, 70000, 300000, 300000, 1100000, 1100000, 1100000, 2200000, 2200000] + ([] if ctx.quick() else [5000000, 17000000, 17000000])), p_big)
+    # a text that happens to be the name of an existing file (absolute, or relative to the working directory) is a text
+    # like any other: one word that is not a field
+    import os
+    named = []
+    cwd = os.getcwd()
+    try:
+        os.chdir(ctx.scratch)
+        for fn in ('control', 'README', 'copyright', 'x.dsc'):
+            with open(os.path.join(ctx.scratch, fn), 'w') as f:
+                f.write('Package: from-the-file\nVersion: 1\n')
+            named += [fn, os.path.join(ctx.scratch, fn), './' + fn]
+        fails += ctx.prop('prop:lossless:texts-that-name-files', named, p_lossless)
+    finally:
+        os.chdir(cwd)
+        for fn in ('control', 'README', 'copyright', 'x.dsc'):
+            try:
+                os.unlink(os.path.join(ctx.scratch, fn))
+            except OSError:
+                pass
     fails += ctx.prop('prop:fresh-results', [t for t in texts if t.strip()][::max(1, len(texts) // ctx.n(3000, 30000))], p_fresh)
     # repeated names: all patterns of length <= 5 over 2 names x 2 values, then random
     import itertools
